@@ -17,7 +17,7 @@ for m in MUTATIONS:
         continue
     out = []
     for f, old, new in m["edits"]:
-        p = os.path.join("/repo", f)
+        p = os.path.join(os.environ.get("SELFTEST_SRC", "/repo"), f)
         src = open(p).read()
         if src.count(old) != 1:
             print("!! %s/%s: pattern occurs %d times in %s" % (pid, name, src.count(old), f))
